@@ -443,6 +443,68 @@ pub fn run_history_property(a: &WorkerArgs) -> WorkerReport {
             acc.rep.extra.insert("exhaustive_space".into(), serde_json::json!(crate::enumerate::space_text(prop)));
         }
     }
+    // light-weight scripts on queues of 4 096 ... 131 073 elements (thresholds of fast paths)
+    {
+        let hc = crate::huge::huge_cases(prop);
+        let mut ran = 0u64;
+        for (i, c) in hc.iter().enumerate() {
+            // every worker takes a slice; C03 / C08 visit a third of the grid per run, rotated by the seed
+            if (i as u32) % a.nworkers.max(1) != (a.worker % 100) % a.nworkers.max(1) {
+                continue;
+            }
+            if matches!(prop, 3 | 8) && c.seed < 1000 && (i as u64 + a.seed) % 3 != 0 {
+                continue;
+            }
+            journal.write(&serde_json::to_string(c).unwrap());
+            disarm_fuse();
+            let r = catch_unwind(AssertUnwindSafe(|| crate::huge::huge_verdict(c)));
+            ran += 1;
+            let failure = match r {
+                Ok(Ok(())) => None,
+                Ok(Err(f)) => Some(f),
+                Err(_) => {
+                    let (msg, loc) = last_panic();
+                    if is_harness_location(&loc) {
+                        if acc.rep.harness_bugs.len() < 5 {
+                            acc.rep.harness_bugs.push(format!("{} @ {} in huge case {:?}", msg, loc, c));
+                        }
+                        None
+                    } else {
+                        Some(Failure { group: Group::Panic, clause: "panic", step: 0, op: "huge", detail: format!("panicked: {} @ {} on {:?}", msg, loc, c), kind: if c.kind == Kind::PQ { "PQ" } else { "DPQ" } })
+                    }
+                }
+            };
+            if let Some(f) = failure {
+                let owned = match prop {
+                    1 | 2 => matches!(f.group, Group::Order | Group::Panic),
+                    3 => matches!(f.group, Group::Content | Group::Ret | Group::Panic),
+                    8 => matches!(f.op, "iter_mut" | "pop_if" | "retain"),
+                    _ => false,
+                };
+                if owned && !acc.rep.violations.iter().any(|v| v.signature == f.signature()) {
+                    let path = format!("{}/{}-huge-{}-{}-{}.json", a.replay_dir, pid, if c.kind == Kind::PQ { "pq" } else { "dpq" }, c.n, c.pattern);
+                    let _ = std::fs::write(&path, serde_json::to_string(c).unwrap());
+                    acc.rep.violations.push(ViolationRec { signature: f.signature(), detail: f.detail, replay: path, step: 0 });
+                } else if !owned {
+                    *acc.rep.foreign.entry(f.signature()).or_insert(0) += 1;
+                }
+            } else {
+                let mut st = Stats::default();
+                st.max_size = c.n;
+                st.hit("huge_queue_script");
+                let h = {
+                    use std::hash::{Hash, Hasher};
+                    let mut hh = std::collections::hash_map::DefaultHasher::new();
+                    c.hash(&mut hh);
+                    hh.finish()
+                };
+                acc.record(c, h, 1_000_000, true, &st);
+            }
+        }
+        if ran > 0 {
+            acc.rep.extra.insert("huge_queue_scripts".into(), serde_json::json!(ran));
+        }
+    }
     while remaining > 0 && failures_left > 0 {
         let mut runner = TestRunner::new_with_rng(Config { cases: remaining, ..config.clone() }, TestRng::from_seed(RngAlgorithm::ChaCha, &mix_seed(a.seed, prop, a.worker, leg)));
         let mut last_fail: Option<Failure> = None;
@@ -531,6 +593,10 @@ pub fn run_history_property(a: &WorkerArgs) -> WorkerReport {
 
 /// Replay one case file under a property; returns the failure if it still fails.
 pub fn replay_history(prop: u8, text: &str, strict_known: &[KnownFinding]) -> Result<Option<Failure>, String> {
+    if text.contains("\"huge\":true") {
+        let c: crate::huge::HugeCase = serde_json::from_str(text).map_err(|e| format!("cannot parse case: {}", e))?;
+        return Ok(crate::huge::huge_verdict(&c).err());
+    }
     #[cfg(feature = "std")]
     if prop == 15 && text.contains("zst_battery") {
         return Ok(crate::special::zst_battery());
